@@ -145,7 +145,9 @@ def directed_pairs(rng, opts, n):
     hosts = ['a.test', 'a.test', 'b.test', 'sub.a.test', 'nota.test', 'a.test.evil.test', 'c.test']
     paths = ['/dir/page.html', '/dirx/page.html', '/dir-old/x.html', '/dir.bak/', '/dir', '/dir/', '/', '/dir/sub/x.png',
              '/di/x.html', '/other/x.html', '/dir/private/s.html', '/dir/privatex', '/img/a.png', '/imgs/a.png', '/x.zip', '/x.zipx',
-             '/cgi-bin/q', '/cgi/q', '/data1.bin', '/tmpfile', '/logout', '/dir/page.htmlx']
+             '/cgi-bin/q', '/cgi/q', '/data1.bin', '/tmpfile', '/logout', '/dir/page.htmlx',
+             # paths that both halves of a two-sided rule match (accept and reject regex, accept and reject suffix lists)
+             '/dir/logout', '/img/x.zip', '/dir/sub/a.zip', '/dir/data1.zip', '/dir/tmp.html']
     level_limit = opts.get('level') or 3
     prl = opts.get('page_requisites_level') or 3
     tries = opts.get('tries') or 3
@@ -175,6 +177,12 @@ def option_sets(rng, n_random):
         for combo in itertools.combinations(names, k):
             if ok(combo):
                 yield list(combo)
+    # both halves of a two-sided rule together, in a recursive crawl (alone and with one further option)
+    for both in (('accept_regex', 'reject_regex'), ('accept', 'reject'), ('include_dirs', 'exclude_dirs'),
+                 ('domains', 'exclude_domains'), ('hostnames', 'exclude_hostnames')):
+        yield ['recursive'] + list(both)
+        for extra in ('span_hosts', 'page_requisites', 'no_parent'):
+            yield ['recursive', extra] + list(both)
     for _ in range(n_random):
         k = rng.choice([3, 3, 4, 5, 7])
         combo = rng.sample(names, k)
